@@ -176,7 +176,10 @@ fn find_overload_casts(
             .get_intrinsic_data(id)
             .is_some()
         {
-            context.build_intrinsic_template(id, &inferred_args)
+            match context.build_intrinsic_template(id, &inferred_args) {
+                Some(id) => id,
+                None => return Err(()),
+            }
         } else {
             match context.build_function_template_signature(id, &inferred_args) {
                 Some(id) => id,
